@@ -313,28 +313,58 @@ func ruleBHash(w *World, r *Report) {
 	w.checkUnionLoop(r, fn)
 }
 
-func (w *World) checkUnionLoop(r *Report, hash *ssa.Function) {
-	sel := w.selectMethod()
-	// the binary-operator type whose Select calls the identity function
-	for _, qt := range w.peerTypes() {
-		fn := qt.Methods[sel]
-		if fn == nil {
-			continue
+// sameRecvFamily: fn and the methods on the same receiver it calls (transitively).
+func (w *World) sameRecvFamily(fn *ssa.Function) []*ssa.Function {
+	seen := map[*ssa.Function]bool{}
+	var out []*ssa.Function
+	var add func(f *ssa.Function)
+	add = func(f *ssa.Function) {
+		if f == nil || seen[f] {
+			return
 		}
-		var hcalls []*ssa.Call
-		eachInstr(fn, false, func(_ *ssa.Function, in ssa.Instruction) {
-			if c, ok := in.(*ssa.Call); ok && c.Call.StaticCallee() == hash {
-				hcalls = append(hcalls, c)
+		seen[f] = true
+		out = append(out, f)
+		eachInstr(f, false, func(_ *ssa.Function, in ssa.Instruction) {
+			if ci, ok := in.(ssa.CallInstruction); ok {
+				cc := ci.Common()
+				if c := cc.StaticCallee(); c != nil && w.inPkg(c) && c.Signature.Recv() != nil && len(cc.Args) > 0 && isRecv(cc.Args[0]) {
+					add(c)
+				}
 			}
 		})
-		if len(hcalls) == 0 {
+	}
+	add(fn)
+	return out
+}
+
+func (w *World) checkUnionLoop(r *Report, hash *ssa.Function) {
+	sel := w.selectMethod()
+	// the binary-operator type whose Select (or a helper method of it) calls the identity function
+	for _, qt := range w.peerTypes() {
+		top := qt.Methods[sel]
+		if top == nil {
 			continue
 		}
-		r.FuncsAnalysed[fnName(fn)] = true
-		if len(hcalls) != 2 {
-			r.bad("B-HASH", "union:operands", w.pos(fn.Pos()), fmt.Sprintf("%d operands are keyed, expected both", len(hcalls)))
+		fam := w.sameRecvFamily(top)
+		type site struct {
+			fn *ssa.Function
+			hc *ssa.Call
 		}
-		for i, hc := range hcalls {
+		var sites []site
+		for _, f := range fam {
+			eachInstr(f, false, func(_ *ssa.Function, in ssa.Instruction) {
+				if c, ok := in.(*ssa.Call); ok && c.Call.StaticCallee() == hash {
+					sites = append(sites, site{f, c})
+				}
+			})
+		}
+		if len(sites) == 0 {
+			continue
+		}
+		keyedFields := map[string]bool{}
+		for i, s := range sites {
+			fn, hc := s.fn, s.hc
+			r.FuncsAnalysed[fnName(fn)] = true
 			key := fmt.Sprintf("union:operand%d", i+1)
 			// keyed node = copy of the Select result of an operand
 			arg := resolveNav(w, hc.Call.Args[0])
@@ -346,6 +376,26 @@ func (w *World) checkUnionLoop(r *Report, hash *ssa.Function) {
 			if selCall == nil || !selCall.Call.IsInvoke() || selCall.Call.Method.Name() != sel {
 				r.bad("B-HASH", key, w.instrPos(hc), "the key is not computed from a copy of the node the operand just produced")
 				continue
+			}
+			// which operand(s): a field of the receiver, or a parameter bound at the call sites of this helper
+			if f, ok := recvFieldLoad(selCall.Call.Value); ok {
+				keyedFields[f.Name()] = true
+			} else if p, ok := resolve(selCall.Call.Value).(*ssa.Parameter); ok && p.Parent() == fn {
+				idx := -1
+				for pi, pp := range fn.Params {
+					if pp == p {
+						idx = pi
+					}
+				}
+				for _, g := range fam {
+					eachInstr(g, false, func(_ *ssa.Function, in ssa.Instruction) {
+						if ci, ok := in.(ssa.CallInstruction); ok && ci.Common().StaticCallee() == fn && idx >= 0 && idx < len(ci.Common().Args) {
+							if f, ok := recvFieldLoad(ci.Common().Args[idx]); ok {
+								keyedFields[f.Name()] = true
+							}
+						}
+					})
+				}
 			}
 			// lookup m[code] comma-ok; append + insertion on the not-found edge
 			var lk *ssa.Lookup
@@ -420,6 +470,18 @@ func (w *World) checkUnionLoop(r *Report, hash *ssa.Function) {
 			} else {
 				r.bad("B-HASH", key, w.instrPos(hc), fmt.Sprintf("union bookkeeping broken: key inserted=%v node appended on the new-key edge=%v appended elsewhere=%v operand drained=%v — nodes are duplicated or lost", ins, app, stray, drained))
 			}
+		}
+		// both operands of the binary operator are keyed
+		var missing []string
+		for _, f := range qt.Fields {
+			if f.IsQuery && !keyedFields[f.Var.Name()] {
+				missing = append(missing, f.Var.Name())
+			}
+		}
+		if len(missing) > 0 {
+			r.bad("B-HASH", "union:operands", w.pos(top.Pos()), fmt.Sprintf("the nodes of operand %v are not keyed: only one side of the union is de-duplicated", missing))
+		} else {
+			r.ok("B-HASH", "union:operands", w.pos(top.Pos()), "the nodes of both operands are keyed")
 		}
 		return
 	}
